@@ -39,7 +39,7 @@ impl Property for C20 {
     "cases = tie-heavy corpus in 1-4 segments, a query (match_all or scored tree incl. function/script scores), optional filter, sort plan of 0-3 keys, limit 1..12, execution strategy, optional aggregation tree, optional rescore, first or second page of a cursor walk; the response is computed with (explain, profile) = (off,off) and compared with (on,off), (off,on), (on,on): ids, order, scores (tolerance), total_hits_estimate, next_cursor presence (and equality), aggregations; with explain every hit carries an explanation whose final_score equals the hit score. Non-trivial = non-score sort or >=2 segments or a cursor; distinct = hash of the request".into()
   }
   fn plan(tier: Tier) -> Plan {
-    Plan { workers: 16, cases_per_worker: tier.pick(400, 8000) }
+    Plan { workers: 16, cases_per_worker: tier.pick(1500, 100000) }
   }
   fn shrink_iters() -> u32 {
     800
